@@ -759,6 +759,10 @@ class Saver:
             for f in pending:
                 # A chunk that failed to save (on a pool worker) must not be reported as saved
                 f.result(timeout=self.timeout)
+            # Close inside the try block: a failure while finishing (the final metadata
+            # write, renaming the temp directory) is a failed save like any other and
+            # has to be recorded in got_exception and reported to the caller.
+            self.close(wait_for=pending)
 
         except strax.MailboxKilled:
             # Write exception (with close), but exit gracefully.
